@@ -79,15 +79,32 @@ def mutators(ix, R):
             else:
                 ta = atom_of(fl, sts[0].target)
                 base = atom_of(fl, ta.args[0]) if ta is not None and ta.head == 'idx' and len(ta.args) == 2 else None
-                if base is None or base.head != 'getattr' or not fl.tab.equal(ta.args[1], par):
-                    why.append('table is not both read and written: stores at %s' % fmt(fl, sts[0].target))
-                else:
-                    written = base.args[1]
+                sel = None
+                if base is not None and base.head == 'guard' and fl.tab.equal(ta.args[1], par):
+                    # (model.T if p in model.T' else observation.T'')[p]: the choice made between the tables rather
+                    # than between the objects
+                    c_, mt_, ot_ = base.args
+                    mtx_, otx_ = fmt(fl, mt_), fmt(fl, ot_)
+                    if mtx_.startswith('self._model.') and otx_.startswith('self._observed.') and \
+                            mtx_.count('.') == 2 and otx_.count('.') == 2:
+                        mn_, on_ = mtx_.split('.')[2], otx_.split('.')[2]
+                        if norm(mn_) != norm(on_):
+                            why.append('model table %s, observation table %s' % (mn_, on_))
+                        sel = (on_, (c_, code(fl, 'self._model'), code(fl, 'self._observed')))
+                    else:
+                        raise AnalysisError('the table written is %s: not a shape this rule reads' % fmt(fl, ta.args[0]))
+                elif base is not None and base.head == 'getattr' and fl.tab.equal(ta.args[1], par):
                     ga = atom_of(fl, base.args[0])
                     if ga is None or ga.head != 'guard':
                         why.append('object is %s' % fmt(fl, base.args[0]))
                     else:
-                        c, m, o = ga.args
+                        sel = (base.args[1], tuple(ga.args))
+                else:
+                    why.append('table is not both read and written: stores at %s' % fmt(fl, sts[0].target))
+                if sel is not None:
+                    written = sel[0]
+                    if True:
+                        c, m, o = sel[1]
                         ca = atom_of(fl, c)
                         tested = None
                         if ca is not None and ca.head == 'cmp' and ca.extra == ('In',) and fl.tab.equal(ca.args[0], par):
@@ -173,13 +190,23 @@ def mutators(ix, R):
     with R.guard('1.set_prior', 'SIB', site, 'set_prior'):
         f = ix.func(site)
         fl = mkflow(ix, site)
-        tests, reads, writes = table_attrs(f)
-        used = {a for a, _, _ in tests}
+        # on the flow (helpers new to the reviewed tree are followed): the tables named by the membership test that
+        # guards the raise - the one that selects the object and the one that is searched - are the fitting tables
+        import re as _re
         rs = fl.of('raise')
         st = [e for e in fl.of('store')]
-        ok = used == {'fittingParameters'} and rs and st and \
+        par_ = fl.tab.name(f.params()[1])
+        used = set()
+        for g in (rs[0].guards if rs else ()):
+            a_ = atom_of(fl, g.rf) if g.rf is not None else None
+            if a_ is not None and a_.head == 'cmp' and a_.extra[0] == 'In' and fl.tab.equal(a_.args[0], par_):
+                used |= {x.replace('_', '').lower() for x in _re.findall(r'\.(_?[A-Za-z_]*[Pp]arameters)\b', fmt(fl, a_.args[1]))}
+        if rs and st and not used:
+            raise AnalysisError('the test that guards the raise of set_prior names no parameter table: %s' %
+                                [g.text() for g in rs[0].guards])
+        ok = used == {'fittingparameters'} and rs and st and \
             fl.events.index(rs[0]) < fl.events.index(st[0]) and \
-            any(_is_table_test(fl, g, fl.tab.name(f.params()[1])) for g in rs[0].guards)
+            any(_is_table_test(fl, g, par_) for g in rs[0].guards)
         R.check('1.set_prior', 'SIB', site,
                 'set_prior checks the name against the fitting table of the selected object and raises before storing',
                 ok, key='set_prior check', detail='tests %s, raises %d, stores %d' % (sorted(used), len(rs), len(st)),
@@ -191,8 +218,7 @@ def _is_table_test(fl, g, par):
     a = atom_of(fl, g.rf) if g.rf is not None else None
     if a is None or a.head != 'cmp' or a.extra[0] != 'In' or g.positive:
         return False
-    return fl.tab.equal(a.args[0], par) and fmt(fl, a.args[1]).endswith('fittingParameters') or \
-        fl.tab.equal(a.args[0], par) and 'fittingParameters' in fmt(fl, a.args[1])
+    return fl.tab.equal(a.args[0], par) and 'fittingparameters' in fmt(fl, a.args[1]).replace('_', '').lower()
 
 
 def prior_table(ix, R):
@@ -472,7 +498,13 @@ def compile_fn(ix, R):
         sides = sorted(sum(membership(x) for x in e.guards) for e in pr)
         if sides == [0]:
             e = pr[0]
-            if stored is None or not fl.tab.equal(e.args[0], stored) or (ent and fl.events.index(e) < fl.events.index(ent[0])):
+            # ... or the two sides joined in one local before a single append: the stored prior if the name is in the
+            # table, else the default that has just been entered
+            joined = stored is not None and dflt_ok and ent and fl.events.index(ent[0]) < fl.events.index(e) and any(
+                fl.tab.equal(e.args[0], spec(fl, '_guard(N in T, T[N], D)', {'N': name, 'T': tbl, 'D': d_}))
+                for d_ in (want, want2))
+            if not joined and (stored is None or not fl.tab.equal(e.args[0], stored) or
+                               (ent and fl.events.index(e) < fl.events.index(ent[0]))):
                 why.append('appends %s, not the table entry made for the parameter' % fmt(fl, e.args[0]))
         elif sides == [-1, 1]:
             for e in pr:
